@@ -164,7 +164,7 @@ class SeqHarness:
         if which == "catch":
             last = None if ctx.choose(2, "an earlier source failed") == 1 else SV(ctx.fresh("last_exc", "val").t, "val", tag="exc")
             if last is not None:
-                ctx.assume(smt.truthy(last.t))  # A-exc: an exception instance is truthy
+                ctx.assume(last.t != smt.NONE)  # A-exc: an exception instance is not None (its truth value is arbitrary)
             cells["last_exception"].vars["last_exception"] = last
         w.log.clear()
         try:
